@@ -220,8 +220,62 @@ def judge(retries, timeout, delta, chosen, result, exc, done_at, task_done, send
     return out
 
 
+def run_loopback(acc):
+    """Conformance of the fake transport: the same outcome sequences on real
+    loopback sockets (separate process, stock selector loop, no virtual
+    clock); only order-insensitive observables are compared."""
+    import json
+    import os
+    import subprocess
+    import sys
+
+    env = {k: v for k, v in os.environ.items()}
+    verif = os.path.dirname(os.path.dirname(os.path.dirname(os.path.abspath(__file__))))
+    try:
+        proc = subprocess.run([sys.executable, "-m", "vmc.loopback_c13", world.REPO_SRC], cwd=verif, env=env, stdout=subprocess.PIPE, stderr=subprocess.PIPE, timeout=120)
+        doc = json.loads(proc.stdout.decode() or "{}")
+    except Exception as exc:  # noqa
+        doc = {"skipped": repr(exc)}
+    if "results" not in doc:
+        acc.extra["loopback_pass"] = "skipped: %s" % (doc.get("skipped") or "no output")
+        acc.count(evaluations=1, nontrivial=0)
+        return
+    index = {"reply": 0, "none": 1, "two-replies": 5, "icmp": 6}
+    disagreements = []
+    for r in doc["results"]:
+        seq, retries = r["sequence"], r["retries"]
+        run = make_run(retries, 0.5)
+        choices = [index[o] for o in seq]
+        if seq == ["icmp"] and retries > 1:
+            choices = [6] * retries
+        ctx, obs, violations = explore.run_once(run, tuple(choices))
+        ename, result, done_at, nsends, unclosed, logged = obs
+        fake_kind = "result" if ename is None else "exception"
+        fake_exc = None if ename is None else ("OSError" if ename in ("ConnectionRefusedError", "OSError") else ename)
+        real_kind, real_val = r["outcome"]
+        same = fake_kind == real_kind
+        if same and real_kind == "exception":
+            same = fake_exc == real_val
+        if same and real_kind == "result":
+            same = result[-1:] == real_val.encode("latin1")[-1:]  # index of the answered attempt
+        if r["datagrams_received_by_peer"] is not None:
+            same = same and r["datagrams_received_by_peer"] == nsends
+            same = same and r["payloads_identical"] is True
+        same = same and (r["fds_left_open"] > 0) == (unclosed > 0)
+        acc.count(evaluations=1, nontrivial=1, states=1, transitions=nsends, traces=1)
+        acc.outcome("loopback-agrees" if same else "loopback-disagrees")
+        if not same:
+            disagreements.append({"real": r, "fake": {"outcome": ename or "result", "sends": nsends, "unclosed": unclosed}})
+    acc.extra["loopback_pass"] = "%d sequences compared with real loopback sockets, %d disagreements" % (len(doc["results"]), len(disagreements))
+    acc.sample({"family": "loopback conformance", "sequences": [r["sequence"] for r in doc["results"]]})
+    if disagreements:
+        raise world.HarnessError("fake datagram transport disagrees with real sockets: %r" % disagreements[:2])
+
+
 def shards(tier):
     out = []
+    if tier == "thorough":
+        out.append({"tier": tier, "loopback": True})
     for r, t in configs(tier):
         for first in range(len(OUTCOMES)):
             out.append({"retries": r, "timeout": t, "first": first, "tier": tier})
@@ -249,6 +303,9 @@ def closed_form_leaves(retries, timeout, first):
 
 
 def run_shard(params, acc):
+    if params.get("loopback"):
+        run_loopback(acc)
+        return
     run = make_run(params["retries"], params["timeout"])
 
     def on_exec(ctx, obs, violations):
@@ -291,6 +348,6 @@ def meta(tier):
         "assumptions": [
             "the fake datagram transport models asyncio's selector transport contract: close()/abort() schedule connection_lost(None) once, no delivery after close, selector events of an iteration precede timers due in it and follow wake-ups queued before",
             "for ICMP / connection-lost outcomes the statement prescribes no result: propagating the OS error or counting the attempt as unanswered are both accepted; a reply landing exactly at the timeout instant may be returned or count as unanswered",
-            "real loopback sockets are outside the scheduler and not part of the claim",
+            "real loopback sockets are outside the scheduler and not part of the claim; the thorough tier replays 9 outcome sequences on real loopback sockets in a separate process and requires the fake transport to agree on result / exception, datagrams seen by the peer and leaked descriptors (skipped, not failed, when sockets are unavailable)",
         ],
     }
